@@ -22,7 +22,7 @@ pub fn prop() -> Prop {
         max_len: 200,
         quick: 6_000,
         thorough: 200_000,
-        rule: "Part A: choice sequence -> thread program: 2-16 threads, each 1-6 operations from {format, format_flat, tree_format(true|false), diagnostic_annotated, hex, register_tags, known-value lookup by name / by value through KNOWN_VALUES, function / parameter name lookup through GLOBAL_FUNCTIONS / GLOBAL_PARAMETERS, dcbor tag-name lookup} on 1-4 generated envelopes (known values, tagged leaves, dates, expressions, requests / responses, elided / encrypted / compressed parts), each operation preceded by a generated busy-wait of 0-50 us, all threads released by one barrier; EVERY CASE RUNS IN ITS OWN CHILD PROCESS, so all threads race on first-use initialisation (a second class registers tags before the barrier). oracle: the child exits within the watchdog, every thread joins without panic (a poisoned lock shows up as a panic of a later caller), and every result equals the text the same call returns alone, computed in two reference child processes (never-registered / registered-first): equal to the unregistered reference if the program has no register_tags, to the registered one if registration completed before the barrier, to either if a register_tags is racing. Part B (separate build with bc-envelope/multithreaded): a generated envelope is shared by 2-16 threads which compute digest, bytes, structural digest, element count, format and tree format and clone/drop sub-envelopes; all must equal the single-thread values. non-trivial: >=3 threads with >=2 distinct operation kinds; distinct by FNV-64 of the program; after a closing barrier each thread repeats one formatting call, which must equal the reference of the final registry state exactly; envelopes may hold array / map leaves whose elements are tagged values with summarizers (panicking date, key bundles, custom tag)",
+        rule: "Part A: choice sequence -> thread program: 2-16 threads, each 1-6 operations from {format, format_flat, tree_format(true|false), diagnostic_annotated, hex, register_tags, known-value lookup by name / by value through KNOWN_VALUES, function / parameter name lookup through GLOBAL_FUNCTIONS / GLOBAL_PARAMETERS, dcbor tag-name lookup} on 1-4 generated envelopes (known values, tagged leaves, dates, expressions, requests / responses, elided / encrypted / compressed parts), each operation preceded by a generated busy-wait of 0-50 us, all threads released by one barrier; EVERY CASE RUNS IN ITS OWN CHILD PROCESS, so all threads race on first-use initialisation (a second class registers tags before the barrier). oracle: the child exits within the watchdog, every thread joins without panic (a poisoned lock shows up as a panic of a later caller), and every result equals the text the same call returns alone, computed in two reference child processes (never-registered / registered-first): equal to the unregistered reference if the program has no register_tags, to the registered one if registration completed before the barrier, to either if a register_tags is racing. Part B (separate build with bc-envelope/multithreaded): a generated envelope is shared by 2-16 threads which compute digest, bytes, structural digest, element count, format and tree format and clone/drop sub-envelopes; all must equal the single-thread values. non-trivial: >=3 threads with >=2 distinct operation kinds; distinct by FNV-64 of the program; after a closing barrier each thread repeats one formatting call, which must equal the reference of the final registry state exactly; envelopes may hold array / map leaves whose elements are tagged values with summarizers (panicking date, key bundles, custom tag); one format call in four builds its envelope in place from typed values at the moment of the call",
         assumptions: &[
             "WEAK: schedules are sampled (jitter + fresh-process repetition), not enumerated; the harness does not own the scheduler and the locks of dcbor::GLOBAL_TAGS live in a dependency",
             "a child that does not finish within 20 s is a violation only if two /proc samples 1 s apart show every thread sleeping with no CPU time consumed (deadlock); otherwise the run is inconclusive (exit 2)",
@@ -133,8 +133,17 @@ pub fn decode_program(data: &[u8]) -> Program {
     Program { envs, threads, pre_register }
 }
 
+/// The bytes of the running program: lets a step build its envelope afresh, at the moment of the call
+/// (an envelope built from typed values may capture registry state at construction; a decoded one cannot).
+pub static PROGRAM_BYTES: std::sync::OnceLock<Vec<u8>> = std::sync::OnceLock::new();
+
 pub fn run_step(e: &Envelope, s: &Step) -> String {
     match s.op {
+        // one format call in four works on an envelope built in place, just now, from typed values
+        0 if s.arg % 4 == 3 && PROGRAM_BYTES.get().is_some() => {
+            let p = decode_program(PROGRAM_BYTES.get().unwrap());
+            p.envs[s.env % p.envs.len()].format()
+        }
         0 => e.format(),
         1 => e.format_flat(),
         2 => e.tree_format(true),
@@ -213,6 +222,7 @@ pub fn child_main(mode: &str, hex_program: &str) -> i32 {
     };
     // decoding builds envelopes, which may touch the registries: in race mode that is part of the
     // experiment's prologue and identical in the reference runs.
+    let _ = PROGRAM_BYTES.set(data.clone());
     let prog = decode_program(&data);
     let envs_bytes: Vec<Vec<u8>> = prog.envs.iter().map(|e| e.to_cbor_data()).collect();
     match mode {
